@@ -17,6 +17,7 @@ from sim.harness import Check, Violation
 
 from frappy.core import Attached, Communicator, FloatRange, HasIO, Module, Parameter, Readable
 from frappy.dynamic import Pinata
+from frappy.errors import CommunicationFailedError
 
 PHASES = ('early', 'init', 'start', 'poll', 'shutdown', 'never')
 
@@ -42,7 +43,8 @@ class C15(Check):
                    'shutdown order is required for every configured attachment between existing modules, whether or '
                    'not it was used before']
     PROBES = ('c15.attachment-edge', 'c15.cyclic', 'c15.missing-target', 'c15.wrong-type', 'c15.pinata', 'c15.shared-io',
-              'c15.failing-init', 'c15.hanging-first-poll', 'c15.configured-write', 'c15.shutdown-during-read')
+              'c15.failing-init', 'c15.hanging-first-poll', 'c15.configured-write', 'c15.shutdown-during-read',
+              'c15.unexported-module', 'fault.first-read-comfail')
 
     def gen_case(self, rng, tier):
         n = rng.randrange(2, 6)
@@ -50,7 +52,11 @@ class C15(Check):
         for i in range(n):
             mods.append({'name': f'm{i}', 'atts': [], 'poll': rng.random() < 0.7, 'cfgwrite': rng.random() < 0.3,
                          'fail': rng.choice([None] * 12 + ['early', 'init']),
-                         'first_poll': rng.choice([0, 0, 0, 0.2, 3.0]), 'comm': rng.random() < 0.2})
+                         'first_poll': rng.choice([0, 0, 0, 0.2, 3.0]), 'comm': rng.random() < 0.2,
+                         # not exported: invisible for clients, but a module of the node like the others
+                         'export': rng.random() > 0.15,
+                         # the very first read fails with a communication error (device not yet reachable)
+                         'first_comfail': rng.random() < 0.12})
         order = list(range(n))
         rng.shuffle(order)       # topological rank
         for a in range(n):
@@ -197,6 +203,10 @@ class C15(Check):
                     d = 40.0 if (shape['hang'] and idx == 0) else m['first_poll']
                     if d:
                         time.sleep(d)
+                    if m.get('first_comfail'):
+                        sim.count('fault.first-read-comfail')
+                        rec('read-done', self.name, 'value')
+                        raise CommunicationFailedError(f'{self.name}: device not reachable yet')
                 elif shape['shutdown_in_read']:
                     # every later read takes a while: the shutdown arrives in the middle of one (0.7 s is longer
                     # than the 0.5 s which shutdown_modules grants the poll threads)
@@ -249,6 +259,9 @@ class C15(Check):
             classes.append(cls)
             bycls[m['name']] = cls
             c = {'cls': cls, 'description': m['name']}
+            if not m.get('export', True):
+                c['export'] = False
+                sim.count('c15.unexported-module')
             if not m['comm']:
                 c['pollinterval'] = {'value': 0.5}
             for a in m['atts']:
@@ -417,7 +430,18 @@ class C15(Check):
                                          f'{m["name"]}: first poll (seq {first[0]}) before the configured write (seq {w[0][0]})'))
         # ---- ready only after every poll thread finished its first round, or the time-out passed
         ready = events('ready')[0]
+        # (a communication failure during the first round makes the poll thread give up that round at once and
+        # report itself started, by design: the other modules served by the same thread are not waited for then)
+        shared = [mm['name'] for i, mm in enumerate(shape['mods']) if shape['shared_io'] and i < 2 and not mm['comm']]
+        gave_up = set()
+        for mm in shape['mods']:
+            if mm.get('first_comfail') and mm['poll']:
+                gave_up.add(mm['name'])
+                if mm['name'] in shared:
+                    gave_up.update(shared)
         for m in shape['mods']:
+            if m['name'] in gave_up:
+                continue
             if m['poll'] and not m['comm'] and m['name'] in names:
                 done = [e for e in log if e[2] == 'read-done' and e[3] == m['name']]
                 if (not done or done[0][0] > ready[0]) and ctx['startup_time'] < 29.9:
@@ -477,7 +501,14 @@ class C15(Check):
         for n, q in dseq.items():
             if n.endswith('_io'):
                 users = [u for u in dseq if u + '_io' == n or True]
-        if ctx.get('pollers_alive') and not shape['hang']:
+        # (a poll thread still inside a long first read cannot stop before that read returns)
+        open_reads = {}
+        for e in log:
+            if e[2] == 'read' and e[4] == 'value':
+                open_reads[e[3]] = e
+            elif e[2] == 'read-done':
+                open_reads.pop(e[3], None)
+        if ctx.get('pollers_alive') and not shape['hang'] and not open_reads:
             res.append(Violation('C15.poller-survives-shutdown', 'thread', f'{ctx["pollers_alive"]} alive 2 s after shutdown'))
         return res
 
